@@ -210,7 +210,21 @@ class GuardEnv:
 
     def text(self, e: ast.AST) -> str:
         e = self.expand(e)
+        if self.subst and any(isinstance(n, ast.Name) and n.id in self.subst for n in ast.walk(e)):
+            e = self._deep(e, 0)
         return self.rename(" ".join(unparse(e).split()))
+
+    def _deep(self, e: ast.AST, depth: int) -> ast.AST:
+        """substitute aliased names anywhere inside the expression (on a parent-free copy)"""
+        import copy as _copy
+        env = self
+
+        class T(ast.NodeTransformer):
+            def visit_Name(self, node):
+                if isinstance(node.ctx, ast.Load) and node.id in env.subst and depth < 6:
+                    return env._deep(_strip(env.subst[node.id]), depth + 1)
+                return node
+        return T().visit(_strip(e))
 
     def expand(self, e: ast.AST, depth: int = 0) -> ast.AST:
         if depth > 6:
@@ -218,6 +232,22 @@ class GuardEnv:
         if isinstance(e, ast.Name) and e.id in self.subst:
             return self.expand(self.subst[e.id], depth + 1)
         return e
+
+
+def _strip(node):
+    """copy of an AST without _parent back-pointers"""
+    if isinstance(node, list):
+        return [_strip(x) for x in node]
+    if not isinstance(node, ast.AST):
+        return node
+    new = node.__class__()
+    for f in node._fields:
+        if hasattr(node, f):
+            setattr(new, f, _strip(getattr(node, f)))
+    for a in ("lineno", "col_offset", "end_lineno", "end_col_offset"):
+        if hasattr(node, a):
+            setattr(new, a, getattr(node, a))
+    return new
 
 
 def formula(e: ast.AST, env: Optional[GuardEnv] = None):
